@@ -8,6 +8,7 @@ mod http_swarm;
 mod valid_until;
 mod export_crash;
 mod access_list;
+mod validator;
 
 use std::collections::HashMap;
 
@@ -105,6 +106,7 @@ fn main() {
         "valid-until" => valid_until::run(&args),
         "export-crash" => export_crash::run(&args),
         "access-list" => access_list::run(&args),
+        "validator" => validator::run(&args),
         "export-child" => export_crash::child(&args),
         other => {
             eprintln!("unknown suite {}", other);
